@@ -118,6 +118,56 @@ def r2(ctx):
                 message="glob results are split on any whitespace: names containing spaces are broken up",
             )
     ctx.require(found, "C24.R2: glob result loop not found")
+    # write_text answers like pathlib: the number of characters of the text it was given
+    f = p.func(f"{CLS}.write_text")
+    data = next((a for a in f.params if a not in ("self",)), "data")
+    n_own = 0
+    for r in [n for n in f.body_nodes() if isinstance(n, ast.Return) and n.value is not None]:
+        for o in origins(f, r.value):
+            if isinstance(o, ast.Await):
+                o = o.value
+            if isinstance(o, ast.Call) and isinstance(o.func, ast.Attribute) and o.func.attr == "write_text":
+                continue  # delegation (R4)
+            n_own += 1
+            ok = isinstance(o, ast.Call) and unparse(o.func) == "len" and len(o.args) == 1 and unparse(o.args[0]) == data
+            ctx.ob("R2", "write_text returns the number of characters of the given text", ok, func=f, node=r, instance="write_text:return",
+                   message=f"write_text returns `{unparse(o)[:80]}` instead of len({data}): the local path returns the character count (a byte count differs for "
+                           "every non-ASCII text)")
+    ctx.require(n_own >= 1, "C24.R2: write_text has no return of its own")
+    # walk: the names it yields are relative to the directory being listed, for directories and files alike
+    from ..dataflow import _param_args
+
+    wk = p.func(f"{CLS}.walk")
+    listed = set()
+    for call, cmd in command_sinks(wk):
+        for fr in fragments(p, wk, cmd):
+            if fr.kind == "quoted" and fr.expr is not None:
+                for x in ast.walk(fr.expr):
+                    if isinstance(x, ast.Name) and x.id not in ("shlex", "str", "quote"):
+                        listed.add(x.id)
+    bases = []
+    helpers = [wk]
+    for c in wk.calls():
+        if isinstance(c.func, ast.Attribute) and isinstance(c.func.value, ast.Name) and c.func.value.id == "self":
+            for q in p.resolve_call(wk, c, fanout=False):
+                h = p.functions.get(q)
+                if h is not None and h.name.startswith("_") and h not in helpers:
+                    helpers.append(h)
+    for h in helpers:
+        for c in h.calls():
+            if isinstance(c.func, ast.Attribute) and c.func.attr == "relative_to" and len(c.args) == 1:
+                a = c.args[0]
+                if h is wk:
+                    bases.append((c, unparse(a)))
+                elif isinstance(a, ast.Name) and a.id in h.params and (b := _param_args(p, h, a.id)) is not None:
+                    bases.extend((c, unparse(e)) for g_, e in b if g_ is wk)
+                else:
+                    bases.append((c, f"{h.name}:{unparse(a)}"))
+    ok = len(bases) >= 2 and len({b for _c, b in bases}) == 1 and (not listed or {b for _c, b in bases} <= listed)
+    ctx.ob("R2", "walk yields directory and file names relative to the directory it listed", ok, func=wk, node=bases[0][0] if bases else wk.node,
+           instance="walk:relative-names",
+           message=f"walk computes child names relative to {sorted({b for _c, b in bases})} while the `find` command lists {sorted(listed)}: below the root the "
+                   "names become multi-component paths and the descent enters directories that do not exist")
 
 
 def _inner_vars(f):
@@ -429,6 +479,10 @@ RULES = [("R1", r1), ("R2", r2), ("R3", r3), ("R4", r4), ("R5", r5)]
 FLOORS = {"R1": 18, "R2": 2, "R3": 28, "R4": 14, "R5": 2}
 
 VARIANTS = [
+    V("walk: directory names relative to the walk root", FILE, f"{CLS}.walk", "relative_to(path)", "relative_to(self)", "R2", count=2),
+    V("write_text returns the byte count", FILE, f"{CLS}.write_text", "return len(data)", "return len(data.encode('utf-8'))", "R2"),
+    V("write_text returns through a temporary (benign)", FILE, f"{CLS}.write_text", "return len(data)", "written = len(data)\n        return written", None),
+
     V("exists: quote removed", FILE, f"{CLS}.exists", "shlex.quote(self.__str__())", "self.__str__()", "R1", control=True),
     V("is_dir: double quotes instead of shlex.quote", FILE, f"{CLS}.is_dir", "shlex.quote(self.__str__())", "f'\"{self.__str__()}\"'", "R1"),
     V("walk: quote removed", FILE, f"{CLS}.walk", "shlex.quote(str(path))", "str(path)", "R1"),
